@@ -85,6 +85,23 @@ func keyFor(alg int64, idx int) keyPair {
 	return kp
 }
 
+// oddRSAKey: RSA keys whose modulus length is NOT a multiple of 8 bits (2052,
+// 2060, 3076): go-cose accepts any RSA key of at least 2048 bits for PS256/384/512.
+func oddRSAKey(alg int64, i int) keyPair {
+	keyMu.Lock()
+	defer keyMu.Unlock()
+	names := []string{"rsa2052.pem", "rsa2060.pem", "rsa3076.pem"}
+	i = ((i % len(names)) + len(names)) % len(names)
+	id := fmt.Sprintf("%d/odd%d", alg, i)
+	if k, ok := keyCache[id]; ok {
+		return k
+	}
+	p := loadRSA(names[i])
+	kp := keyPair{Alg: alg, Idx: 100 + i, Priv: p, Pub: &p.PublicKey}
+	keyCache[id] = kp
+	return kp
+}
+
 // keyForCurve: an ECDSA key pair whose curve is that of curveAlg, to be used
 // with algorithm alg (go-cose allows e.g. ES256 over a P-384 key).
 func keyForCurve(alg, curveAlg int64, idx int) keyPair {
@@ -107,6 +124,9 @@ func keyForCurve(alg, curveAlg int64, idx int) keyPair {
 func (k keyPair) SigLen() int {
 	if pub, ok := k.Pub.(*ecdsa.PublicKey); ok {
 		return 2 * ((pub.Curve.Params().BitSize + 7) / 8)
+	}
+	if pub, ok := k.Pub.(*rsa.PublicKey); ok {
+		return (pub.N.BitLen() + 7) / 8
 	}
 	return icose.SigLen(k.Alg)
 }
